@@ -557,7 +557,7 @@ def config_from(cfg):
     )
 
 
-def run_build(cfg=None, ctl=None, monitors=(), driver=None, env=None, timeout=120):
+def run_build(cfg=None, ctl=None, monitors=(), driver=None, env=None, timeout=60):
     """Run one director (one or more build phases in watch mode) in the current directory.
 
     Returns the `Build` with events, return code, or `error` when `serve()` raised.
